@@ -13,11 +13,11 @@
 //   - getStdv() returns standard deviations (sqrt of the diagonal, negative variances clamped to 0, KrigingCalcul.cpp
 //     _needStdv) -> compared through squares; getVarianceZstar() = lambda^T Sigma lambda.
 //   - setColCokUnique: "The argument 'Zp' must be corrected by the mean of the variables for ... Simple Kriging".
-// Tolerance: 1e3 * eps * kappa * scale, kappa of the complete kriging matrix from ref::LU. Systems with kappa > 1e7 are
+// Tolerance: 1e3 * eps * kappa * scale, kappa of the complete kriging matrix from ref::LU. Systems with kappa > 1e6 are
 // skipped as ill-conditioned: KrigingCalcul multiplies explicit inverses (Sigma^-1, (X^T Sigma^-1 X)^-1, Schur
 // complements), whose round-off grows like eps*kappa(Sigma)*kappa(Schur), i.e. faster than the eps*kappa of one solve
-// of the full system (calibration: at kappa = 7e8 the dual form was 2.3 tolerances away from the long-double
-// reference, at kappa <= 1e7 the worst ratio seen is < 0.05).
+// of the full system (calibration over 20000 thorough cases: at kappa = 7e8 the dual form was 2.3 tolerances away from
+// the long-double reference, with the cut at 1e7 the worst ratio was 0.2, hence 1e6).
 #include "common/vh.hpp"
 #include "common/ref_linalg.hpp"
 #include "common/c04_gen.hpp"
@@ -36,7 +36,7 @@ using ref::LD;
 // KrigingCalcul::_needZstar dereferences '_Means' unconditionally in the SK branch: setData(&Z, nullptr) ("Means ...
 // (optional)") followed by getEstimation() in simple kriging is a null dereference. The generator visits that input
 // class rarely; set to true to keep away from it.
-static const double KAPPA_MAX = 1e7;
+static const double KAPPA_MAX = 1e6;
 
 static const bool AVOID_KRIBAYES_SELECTION = false || getenv("C04_DEV_AVOID2") != nullptr; // env: developer runs only
 static const bool AVOID_CALCUL_NULL_MEANS = false || getenv("C04_DEV_AVOID") != nullptr; // env: developer runs only
